@@ -104,6 +104,7 @@ type srcSpec struct {
 type mutRunner struct {
 	sum    *emit.Summary
 	mapper meta.RESTMapper
+	nSent  int // succeeding mutations seen so far (every fourth also goes through ApplyTask)
 }
 
 func newMutRunner(sum *emit.Summary) (*mutRunner, error) {
@@ -164,6 +165,134 @@ func (c countingRT) RoundTrip(req *http.Request) (*http.Response, error) {
 	*c.n++
 	return &http.Response{StatusCode: 500, Header: http.Header{"Content-Type": []string{"application/json"}},
 		Body: io.NopCloser(strings.NewReader(`{"kind":"Status","apiVersion":"v1","status":"Failure","code":500}`))}, nil
+}
+
+// canonJSON: encoding/json with sorted keys; numbers as Go prints them (json.Number verbatim)
+func canonJSON(v interface{}) string {
+	b, err := json.Marshal(v)
+	if err != nil {
+		return "!" + err.Error()
+	}
+	return string(b)
+}
+
+// dropNulls removes null-valued map entries (the create path of kubectl apply does not transmit them;
+// that is the library's serialisation, not the task's doing) — copies, the input is left alone
+func dropNulls(v interface{}) interface{} {
+	switch x := v.(type) {
+	case map[string]interface{}:
+		m := map[string]interface{}{}
+		for k, e := range x {
+			if e != nil {
+				m[k] = dropNulls(e)
+			}
+		}
+		return m
+	case []interface{}:
+		l := make([]interface{}, len(x))
+		for i, e := range x {
+			l[i] = dropNulls(e)
+		}
+		return l
+	}
+	return v
+}
+
+func firstDiff(a, b string) string {
+	i := 0
+	for i < len(a) && i < len(b) && a[i] == b[i] {
+		i++
+	}
+	lo := i - 60
+	if lo < 0 {
+		lo = 0
+	}
+	return fmt.Sprintf("first difference at byte %d: sent=…%s want=…%s", i, clip(a[lo:], 160), clip(b[lo:], 160))
+}
+
+// creatingRT answers kubectl's client-side apply of a new object: GET 404, POST echoes and keeps the body.
+type creatingRT struct {
+	bodies *[][]byte
+	other  *int
+}
+
+func (c creatingRT) RoundTrip(req *http.Request) (*http.Response, error) {
+	hdr := http.Header{"Content-Type": []string{"application/json"}}
+	switch req.Method {
+	case http.MethodGet:
+		return &http.Response{StatusCode: 404, Header: hdr,
+			Body: io.NopCloser(strings.NewReader(`{"kind":"Status","apiVersion":"v1","status":"Failure","reason":"NotFound","code":404}`))}, nil
+	case http.MethodPost:
+		b, _ := io.ReadAll(req.Body)
+		*c.bodies = append(*c.bodies, b)
+		return &http.Response{StatusCode: 201, Header: hdr, Body: io.NopCloser(strings.NewReader(string(b)))}, nil
+	}
+	*c.other++
+	return &http.Response{StatusCode: 500, Header: hdr,
+		Body: io.NopCloser(strings.NewReader(`{"kind":"Status","apiVersion":"v1","status":"Failure","code":500}`))}, nil
+}
+
+// applySent runs the real ApplyTask on an object whose mutation succeeds and returns the object that
+// reached the API server (mutation campaign, apply_task.go: the task must send the MUTATED copy, and the
+// caller's manifest must stay as it was). ok=false: not exactly one create request / not one success event.
+func (mr *mutRunner) applySent(tgt *unstructured.Unstructured, atm *mutator.ApplyTimeMutator, fdc *dynamicfake.FakeDynamicClient) (map[string]interface{}, string) {
+	var bodies [][]byte
+	other := 0
+	ih := info.NewHelper(mr.mapper, func(*meta.RESTMapping) (resource.RESTClient, error) {
+		return &fake.RESTClient{
+			NegotiatedSerializer: resource.UnstructuredPlusDefaultContentConfig().NegotiatedSerializer,
+			Client:               &http.Client{Transport: creatingRT{&bodies, &other}},
+		}, nil
+	})
+	eventCh := make(chan event.Event, 64)
+	tc := taskrunner.NewTaskContext(eventCh, cache.NewResourceCacheMap())
+	at := &task.ApplyTask{
+		TaskName:       "apply-0",
+		DynamicClient:  fdc,
+		InfoHelper:     ih,
+		Mapper:         mr.mapper,
+		Objects:        object.UnstructuredSet{tgt},
+		Mutators:       []mutator.Interface{atm},
+		DryRunStrategy: common.DryRunNone,
+	}
+	at.Start(tc)
+	select {
+	case <-tc.TaskChannel():
+	case <-time.After(20 * time.Second):
+		return nil, "ApplyTask did not finish within 20s"
+	}
+	okEv, otherEv := 0, 0
+	for {
+		select {
+		case e := <-eventCh:
+			if e.Type == event.ApplyType && e.ApplyEvent.Status == event.ApplySuccessful {
+				okEv++
+			} else {
+				otherEv++
+			}
+			continue
+		default:
+		}
+		break
+	}
+	if len(bodies) != 1 || other != 0 || okEv != 1 || otherEv != 0 {
+		return nil, fmt.Sprintf("ApplyTask with a succeeding mutation: %d create requests, %d other requests, %d success events, %d other events", len(bodies), other, okEv, otherEv)
+	}
+	var sent map[string]interface{}
+	dec := json.NewDecoder(strings.NewReader(string(bodies[0])))
+	dec.UseNumber() // numbers are compared as written (2^53+1 must arrive as 2^53+1)
+	if err := dec.Decode(&sent); err != nil {
+		return nil, "ApplyTask sent a body that is not JSON"
+	}
+	if md, ok := sent["metadata"].(map[string]interface{}); ok {
+		if an, ok := md["annotations"].(map[string]interface{}); ok {
+			delete(an, "kubectl.kubernetes.io/last-applied-configuration")
+			if len(an) == 0 {
+				delete(md, "annotations")
+			}
+		}
+	}
+	return sent, ""
 }
 
 // env builds a fresh mutator over a fresh cache and fake cluster (Mutate
@@ -429,6 +558,42 @@ func (mr *mutRunner) run(s *caseSink, sc mutScenario) {
 	if err != nil {
 		atm2, fdc2 := mr.env(sc.srcs, sc.withCache)
 		applied = mr.applyObserve(tgt.DeepCopy(), atm2, fdc2)
+	} else if mutated && mr.nSent%4 == 0 {
+		// every fourth succeeding mutation also goes through the real ApplyTask: what reaches the API
+		// server must be the mutator's result, and the caller's manifest must be left as it was
+		atm2, fdc2 := mr.env(sc.srcs, sc.withCache)
+		manifest := tgt.DeepCopy()
+		sent, msg := mr.applySent(manifest, atm2, fdc2)
+		// shallow copies: the mutated tree may hold Go ints, which DeepCopy refuses
+		want := map[string]interface{}{}
+		for k, v := range work.Object {
+			want[k] = v
+		}
+		if md, ok := want["metadata"].(map[string]interface{}); ok {
+			if an, ok := md["annotations"].(map[string]interface{}); ok && len(an) == 0 {
+				md2 := map[string]interface{}{}
+				for k, v := range md {
+					if k != "annotations" {
+						md2[k] = v
+					}
+				}
+				want["metadata"] = md2
+			}
+		}
+		switch {
+		case msg != "":
+			mr.sum.ImplFailures = append(mr.sum.ImplFailures, msg+": "+sc.kind)
+		case canonJSON(dropNulls(sent)) != canonJSON(dropNulls(want)):
+			mr.sum.ImplFailures = append(mr.sum.ImplFailures, "ApplyTask sent an object that differs from the mutator's result: "+sc.kind+
+				" "+firstDiff(canonJSON(dropNulls(sent)), canonJSON(dropNulls(want))))
+		case ToTV(manifest.Object).Coq() != before.Coq():
+			mr.sum.ImplFailures = append(mr.sum.ImplFailures, "ApplyTask changed the caller's manifest: "+sc.kind)
+		default:
+			mr.sum.Count("mut:applied-through-ApplyTask")
+		}
+	}
+	if err == nil && mutated {
+		mr.nSent++
 	}
 
 	// environment as Coq tables
